@@ -6,7 +6,10 @@ import random
 from bcverif import encode as E
 from bcverif.runner import MachineryError, parse_prints, pmap, setup_repo_import, suite_events
 
-PARENT_CFGS = [(0, 0), (1, 1), (2, 2), (1, 0), (0, 1), (2, 3), (1, 2), (0, 0), (1, 1)]
+# 0 none, 1 id + sequence, 2 id only, 3 another id, 4 sequence WITHOUT id, 5 sequence type only (no id, no sequence):
+# a parent without an id is still a parent -- it is a different coordinate system from "no parent"
+PARENT_CFGS = [(0, 0), (1, 1), (2, 2), (1, 0), (0, 1), (2, 3), (1, 2), (0, 0), (1, 1),
+               (4, 4), (4, 0), (0, 4), (5, 0), (0, 5), (5, 5), (4, 5), (4, 1)]
 
 
 def _mk_parent(kind, seqlen):
@@ -21,6 +24,10 @@ def _mk_parent(kind, seqlen):
                       if False else Sequence(("ACGT" * (seqlen // 4 + 1))[:seqlen], Alphabet.NT_STRICT)), ["chr", seqlen]
     if kind == 2:
         return Parent(id="chr"), ["chr", -1]
+    if kind == 4:
+        return Parent(sequence=Sequence(("ACGT" * (seqlen // 4 + 1))[:seqlen], Alphabet.NT_STRICT)), ["", seqlen, "idless-seq"]
+    if kind == 5:
+        return Parent(sequence_type="chromosome"), ["", -1, "idless-type"]
     return Parent(id="other"), ["other", -1]
 
 
